@@ -197,8 +197,8 @@ def check_url_loop(P, R):
     cvar = lp.target.id
     seq = src(lp.iter)
     # the literal bookkeeping variables: find the test `c != marker` whose body does `<len> += 1; continue`
-    first = lp.body[0]
-    R.require(isinstance(first, ast.If) and compare_parts(first.test) and src(compare_parts(first.test)[0]) == cvar, 'Route.url: literal branch not found')
+    first = next((st_ for st_ in lp.body if isinstance(st_, ast.If) and compare_parts(st_.test) and src(compare_parts(st_.test)[0]) == cvar), None)
+    R.require(first is not None, 'Route.url: literal branch not found')
     cp = compare_parts(first.test)
     lit_when = cp[1] is ast.NotEq
     body_lit = first.body if lit_when else first.orelse
